@@ -1200,10 +1200,10 @@ Section TraceTheorem.
   Fixpoint persists (ops : list op) : nat :=
     match ops with [] => 0 | OPersist _ :: r => S (persists r) | _ :: r => persists r end.
 
-  Theorem prop_trace_model full U ops : forall s sp i,
+  Theorem prop_trace_model strict full U ops : forall s sp i,
     inv hash_hdr root full s sp -> hist_wf hash_hdr root full ops s sp ->
     (length sp + persists ops <= u_kh U)%nat ->
-    prop_trace hash_hdr root U ops (trace_of cfg_fixed full U ops s) sp true i = V_ok.
+    prop_trace hash_hdr root strict U ops (trace_of cfg_fixed full U ops s) sp true i = V_ok.
   Proof.
     induction ops as [|o r IH]; intros s sp i Hinv Hwf Hk; [reflexivity|].
     cbn [trace_of prop_trace hist_wf] in *. destruct Hwf as [Hop Hrest].
@@ -1289,9 +1289,9 @@ Section Final.
     exact Hc.
   Qed.
 
-  Theorem judge_predicate_all full ops U : hist_wf hash_hdr root full ops cl_empty [] ->
+  Theorem judge_predicate_all strict full ops U : hist_wf hash_hdr root full ops cl_empty [] ->
     (persists ops <= u_kh U)%nat ->
-    prop_trace hash_hdr root U ops (trace_of cfg_fixed full U ops cl_empty) [] true 0 = V_ok.
+    prop_trace hash_hdr root strict U ops (trace_of cfg_fixed full U ops cl_empty) [] true 0 = V_ok.
   Proof.
     intros H Hk. apply prop_trace_model; [exact hash_inj|apply inv_init|exact H|exact Hk].
   Qed.
